@@ -204,3 +204,61 @@ func c17Spellingsstream(c *Ctx, now int) {
 		}
 	}
 }
+
+// c17SharedPointerSites: records that share a pointer (or have none), one of a living and one of a
+// dead person, in either order — decoded files whose xrefs collide. Whatever page name the dead
+// person gets, nothing of the living one may be published in hide / placeholder mode, and exactly
+// the people who are not living get a page.
+func c17SharedPointerSites(c *Ctx, now int) {
+	young := fmt.Sprintf("1 BIRT\n2 DATE 1 Jan %d\n2 PLAC Livplaceq, Oz\n", now-20)
+	liv := func(ptr, k string) string {
+		return "0 " + ptr + "INDI\n1 NAME Livgivenq" + k + " /Livsurq" + k + "/\n2 NICK Livnickq" + k + "\n1 NAME Livaltq" + k + " /Livaltsurq" + k + "/\n1 SEX F\n" + young
+	}
+	dead := func(ptr, k string) string {
+		return "0 " + ptr + "INDI\n1 NAME Deadgivenq" + k + " /Deadsurq" + k + "/\n1 SEX M\n1 BIRT\n2 DATE 1 Jan 1800\n2 PLAC Deadplaceq, Oz\n1 DEAT Y\n"
+	}
+	type doc struct {
+		name, text string
+		nDead      int
+	}
+	docs := []doc{
+		{"living then dead, one xref", "0 HEAD\n" + liv("@I1@ ", "a") + dead("@I1@ ", "a") + dead("@I2@ ", "b") + "0 TRLR\n", 2},
+		{"dead then living, one xref", "0 HEAD\n" + dead("@I1@ ", "a") + liv("@I1@ ", "a") + "0 @F1@ FAM\n1 HUSB @I1@\n1 CHIL @I1@\n0 TRLR\n", 1},
+		{"living, dead, living: one xref", "0 HEAD\n" + liv("@I1@ ", "a") + dead("@I1@ ", "a") + liv("@I1@ ", "b") + "0 TRLR\n", 1},
+		{"no xref at all", "0 HEAD\n" + liv("", "a") + dead("", "a") + dead("", "b") + liv("", "b") + "0 TRLR\n", 2},
+		{"two pairs", "0 HEAD\n" + liv("@I1@ ", "a") + dead("@I1@ ", "a") + dead("@I2@ ", "b") + liv("@I2@ ", "b") + "0 @F1@ FAM\n1 HUSB @I1@\n1 WIFE @I2@\n0 TRLR\n", 2},
+	}
+	all := [6]bool{true, true, true, true, true, true}
+	for _, d := range docs {
+		for _, vis := range []string{"hide", "placeholder"} {
+			for _, jobs := range []int{1, 3} {
+				site, e := c17Publish(c17Job{Gedcom: d.text, Vis: vis, Groups: all, Jobs: jobs})
+				c.Eval()
+				in := map[string]interface{}{"gedcom": d.text, "living": vis, "jobs": jobs, "records": d.name}
+				if e != "" {
+					c.Oracle("", "publish fails: "+vis, in, e, "a site")
+					continue
+				}
+				c.Count("shared-pointer site/" + vis)
+				c.Nontrivial("shared-pointer/" + d.name + "/" + vis)
+				pages := 0
+				for name, content := range site.Files {
+					lc := strings.ToLower(content)
+					for _, tok := range []string{"livgivenq", "livsurq", "livnickq", "livaltq", "livaltsurq"} {
+						if strings.Contains(lc, tok) || strings.Contains(strings.ToLower(name), tok) {
+							c.Oracle("", vis+" mode: records that share a pointer: data of the living one is published", in, name+": "+c17Snippet(lc, tok), "nothing of a living person")
+							break
+						}
+					}
+					if strings.Contains(content, "Name &amp; Sex") {
+						pages++
+					}
+				}
+				if pages != d.nDead {
+					c.Oracle("", vis+" mode: records that share a pointer: not exactly the people who are not living get a page", in,
+						fmt.Sprintf("%d individual pages", pages), fmt.Sprintf("%d", d.nDead))
+				}
+			}
+		}
+	}
+}
